@@ -63,7 +63,7 @@ fn enc_arr<K: BufKind>(p: &[u8]) -> Result<Vec<u8>, OutOfMemory> {
 
 impl Prop for C07 {
     const ID: &'static str = "C07";
-    const RULE: &'static str = "payloads from G1 (token shapes, forced tails, length classes up to 70k/200k, or a length chosen so that the frame is within +-8 of a fixed capacity) x {encode::<Vec>, encode_streaming, encode::<ArrayBuf<N>>}; oracle: byte-identical to the independent reference frame R2, iterator stays None on 1..8 (sometimes 100..400 or 70000) further calls, OutOfMemory iff N < |frame|. Non-trivial: payload has a 0x1b run >= 4, or |p| >= 256, or the capacity is within +-4 of the frame length. Distinct = distinct (payload, capacity, extra calls).";
+    const RULE: &'static str = "payloads from G1 (token shapes, forced tails, length classes up to 70k/200k, or a length chosen so that the frame is within +-8 of a fixed capacity) x {encode::<Vec>, encode_streaming, encode::<ArrayBuf<N>>}; oracle: byte-identical to the independent reference frame R2, iterator stays None on 1..8 (sometimes 100..400 or 70000) further calls, the iterator encoder also consumed through collect(), Vec::extend, Encoder::new, owned items and with size_hint() polled before every step, OutOfMemory iff N < |frame|. Non-trivial: payload has a 0x1b run >= 4, or |p| >= 256, or the capacity is within +-4 of the frame length. Distinct = distinct (payload, capacity, extra calls).";
     type Case = Case;
     type Input = Input;
 
@@ -132,6 +132,25 @@ impl Prop for C07 {
             let x = it.next();
             ensure!(x.is_none(), "encode-streaming-resumes", "encode_streaming returned {:?} on call {} after its end", x, k + 1);
         }
+        // the same iterator consumed the way callers do: collect / extend (std asks for size_hint() while the
+        // vector grows), over borrowed and owned items, through Encoder::new, and with size_hint() polled
+        // before every step
+        let collected: Vec<u8> = encode_streaming(p).take(cap_steps + 1).collect();
+        ensure!(collected == frame, "encode-streaming-mismatch", "encode_streaming({}).collect() = {}, reference frame = {}", hex_short(p, 48), hex_short(&collected, 64), hex_short(&frame, 64));
+        let mut grown: Vec<u8> = Vec::with_capacity(i.extra % 7);
+        grown.extend(sml_rs::transport::Encoder::new(p.iter().copied()).take(cap_steps + 1));
+        ensure!(grown == frame, "encode-streaming-mismatch", "Vec::extend(Encoder::new({})) = {}, reference frame = {}", hex_short(p, 48), hex_short(&grown, 64), hex_short(&frame, 64));
+        let mut it = encode_streaming(p.to_vec());
+        let mut polled = Vec::with_capacity(frame.len());
+        for _ in 0..=cap_steps {
+            let _ = it.size_hint();
+            match it.next() {
+                Some(b) => polled.push(b),
+                None => break,
+            }
+        }
+        let _ = it.size_hint();
+        ensure!(polled == frame, "encode-streaming-mismatch", "encode_streaming({}) with size_hint() polled before every step = {}, reference frame = {}", hex_short(p, 48), hex_short(&polled, 64), hex_short(&frame, 64));
         // fixed buffer
         let mut near = false;
         if let Some(n) = i.cap {
